@@ -217,7 +217,36 @@ def pickling(ctx) -> None:
         ctx.check(ret is not None and [core.src(a) for a in ret.value.args[1:]] == ['actor', 'args', 'types.MappingProxyType(kwargs)'], 'R-PICKLE', spec.ref, 'Spec stores (actor, args, kwargs) in field order', key='Spec:stored', loc=f'{spec.module.relpath}:{new.lineno}')
 
 
+def serializers(ctx) -> None:
+    """State export/import use one by-value serializer everywhere: a trained state holds whatever the user's train function
+    produced (fitted lambdas, instances of locally defined classes) - plain pickle stores those by reference and fails or
+    binds to a different definition on the importing side.  Every get_state/set_state of an Actor class in forml serialises
+    with cloudpickle, exporter and importer alike (sibling agreement)."""
+    prog = ctx.prog
+    actor = prog.cls(f'{TASK}:Actor')
+    n = 0
+    for ci in prog.subclasses(actor, strict=False):
+        for m, want in (('get_state', 'dumps'), ('set_state', 'loads')):
+            if m not in ci.methods:
+                continue
+            fn = prog.func(f'{ci.ref}.{m}')
+            calls_ = [c for c in core.calls_in(fn.node) if isinstance(c.func, ast.Attribute) and c.func.attr in ('dumps', 'loads', 'dump', 'load')]
+            if not calls_:
+                continue
+            for c in calls_:
+                n += 1
+                ctx.check(core.src(c.func) == f'cloudpickle.{want}', 'C13.serializer', fn, f'{ci.qual}.{m} serialises the state by value (`{core.src(c.func)}`; every state exporter/importer in forml uses cloudpickle.{want})', c)
+    ctx.floor('C13.serializer', n, 4)
+    # the class-wrapped flavour registers its reducer on every way out of the metaclass constructor
+    new = prog.func(f'{WACTOR}:Class.__new__')
+    graph = cfg.CFG(new.node)
+    regs = [st for st in graph.statements() if any(core.call_name(c) == 'copyreg.pickle' for c in cfg.header_calls(st))]
+    rets = [st for st in graph.statements() if isinstance(st, ast.Return)]
+    ctx.check(len(regs) == 1 and bool(rets) and all(graph.dominates(regs[0], r) for r in rets), 'R-PICKLE', new, 'every class produced by the wrapping metaclass has its pickling reducer registered (copyreg.pickle dominates every return)', new.node, key='Class.__new__:copyreg')
+
+
 def run(ctx) -> None:
+    serializers(ctx)
     bracket(ctx)
     empty_state(ctx)
     pairing(ctx)
